@@ -87,7 +87,10 @@ def run(res, replay=None):
             g = gens[c]
             on_wall = geo.walls_of_generator(rec, c)
             iv = geo.impl_cell_view(rec, c)
-            if iv is None or not iv["faces_mapped"]:
+            if iv is None:
+                continue
+            if not iv["faces_mapped"]:
+                res.violation("C04:face-list-shape" + geo.mismatch_class(rec), f"cell {c}: {iv['n_face_integrals']} face integrals but {len(iv['face_planes'])} planes of valid dimensionality carry vertices", dict(ctx, cell=c))
                 continue
             tot = [0.0, 0.0, 0.0]
             div = 0.0
